@@ -261,7 +261,11 @@ pub fn cut_chunks<'d>(data: &'d [u8], chunks: &[usize]) -> Vec<&'d [u8]> {
 }
 
 fn build_opts(ctx: &Ctx, s: &WriteSpec, data: &[u8]) -> cacache::WriteOpts {
-    let mut o = cacache::WriteOpts::new().algorithm(s.algo.to_lib());
+    // SHA-256 is the documented default: every other SHA-256 spec leaves the algorithm unset
+    let mut o = cacache::WriteOpts::new();
+    if !(s.algo == Algo::Sha256 && (data.len() + s.chunks.len()) % 2 == 0) {
+        o = o.algorithm(s.algo.to_lib());
+    }
     if let Some(n) = declared_size(s.declare, data.len()) {
         o = o.size(n);
     }
@@ -796,7 +800,10 @@ pub fn pathdiff(path: &Path, base: &Path) -> PathBuf {
 }
 
 fn link_opts(l: &LinkSpec, data: &[u8]) -> cacache::WriteOpts {
-    let mut o = cacache::WriteOpts::new().algorithm(l.algo.to_lib());
+    let mut o = cacache::WriteOpts::new();
+    if !(l.algo == Algo::Sha256 && data.len() % 2 == 0) {
+        o = o.algorithm(l.algo.to_lib());
+    }
     if let Some(n) = declared_size(l.declare, data.len()) {
         o = o.size(n);
     }
